@@ -10,6 +10,7 @@ import ForML.Model.Strategy
 import ForML.Lemmas.C17Float
 import ForML.Lemmas.C17LatestFresh
 import ForML.Lemmas.C17Explicit
+import ForML.Lemmas.C17Builder
 
 namespace ForML.Strategy
 
@@ -525,6 +526,48 @@ theorem C17_normalise_mean (ts : List (Option Nat)) (d : Nat) (hm : 0 < missingC
   simp only [weights, hm', he', if_false]
   rw [weights_sum_complement, Nat.mul_add, Nat.mul_comm (missingCount ts)]
 
+/-! ### ABTest.Builder: the variant set handed to the constructor is the declared one -/
+
+/-- **C17_builder**: `compare(first).over(a₁)…against(aₙ)` builds, coordinate by coordinate, the declared variant
+list: each variant has its own generation and target, and the project / release given last at or before it. -/
+theorem C17_builder (first : Variant) (args : List VArg) : Builder.build first args = declared first args :=
+  build_eq_declared first args
+
+theorem C17_builder_length (first : Variant) (args : List VArg) :
+    (Builder.build first args).length = args.length + 1 := by
+  simp [build_eq_declared, declared, declaredFrom_length]
+
+/-- the targets reach the constructor in declaration order (so every ABTest theorem above speaks about the declared
+variants) -/
+theorem C17_builder_targets (first : Variant) (args : List VArg) :
+    (Builder.build first args).map (·.target) = first.target :: args.map (·.target) := by
+  rw [build_eq_declared]
+  simp only [declared, List.map_cons]
+  congr 1
+  generalize first.project = p
+  generalize first.release = r
+  induction args generalizing p r with
+  | nil => rfl
+  | cons a rest ih => simp [declaredFrom, ih]
+
+/-- the closing variant (`against`) is the one configured: its generation and target, and the project / release it
+names (a cross-project test ends on the named project, not on the preceding variant's). -/
+theorem C17_builder_against (first : Variant) (overs : List VArg) (a : VArg) :
+    ∃ v, (Builder.build first (overs ++ [a])).getLast? = some v ∧ v.generation = a.generation ∧ v.target = a.target ∧
+      (∀ p, a.project = some p → v.project = p) ∧ (∀ r, a.release = some r → v.release = r) := by
+  obtain ⟨p', r', h⟩ := declaredFrom_last first.project first.release overs a
+  refine ⟨⟨a.project.getD p', a.release.getD r', a.generation, a.target⟩, ?_, rfl, rfl, ?_, ?_⟩
+  · rw [build_eq_declared]
+    simp only [declared]
+    rw [List.getLast?_cons_of_ne_nil]
+    · exact h
+    · intro e
+      have := congrArg List.length e
+      rw [declaredFrom_length] at this
+      simp at this
+  · intro p hp; simp [hp]
+  · intro r hr; simp [hr]
+
 /-! ### Latest -/
 
 /-- **C17_latest**: `pick` returns `(r, g)` iff `r` is the highest release having any generation and
@@ -588,10 +631,11 @@ theorem C17_latest_refresh (pre post : List (Nat × List Nat)) (r g : Nat) (gs :
     obtain ⟨rk, gs'⟩ := x
     simp only [List.cons_append, pickLatest, ih]
 
-/-! ### Latest over registry histories `publish r | commit r | tick | select use`
+/-! ### Latest over registry histories `publish r | commit r | tick | select use | fault e`
 
 `execL survive cfg (LState.init rels0) ops` is the state any history `ops` leads to from a registry `rels0`
-(`survive = false`: `_refresh` as it is; `cfg`: the configured release or none).  `Spec cfg rels r g` is the property
+(`survive = true`: `_refresh` as it is; `cfg`: the configured release or none; `fault e`: the next registry call of
+the refresher raises `e`, once).  `Spec cfg rels r g` is the property
 text: `g` is the newest generation of the highest release that has any (or of the configured release `r`).  The
 request observed is `select` followed by a use of the instance (`Obs.served r g`). -/
 
@@ -610,30 +654,69 @@ theorem C17_latest_first_none (sv : Bool) (cfg : Option Nat) (rels0 : Rels) (hwf
     ∃ e, (stepL sv cfg (execL sv cfg (LState.init rels0) ops) (.select true)).2 = .err e :=
   fun hc hs => first_select_none (invL_exec ops (invL_init hwf)).wf hc hs
 
-/-- **C17_latest** (no release configured, `_refresh` as it is, every history): once the selector has been used,
-the refresher is alive, and after its next round a request is served by the newest generation of the highest
-release that has any – whatever was committed or published, to whichever release, before or after the instance
-was used. -/
-theorem C17_latest (rels0 : Rels) (hwf : WF rels0) (ops : List LOp) (r g : Nat) :
+/-- **C17_latest** (the code as it is since 0762d05: `except Exception` around one refresh round; both
+configurations; *every* history of `publish | commit | tick | select use | fault e`, any number of transient registry
+faults of any kind): once the selector has been used the refresher is alive; a refresh round with no fault pending
+brings the newest generation of the highest release that has any (or of the configured release); and whatever is
+pending, two rounds do – a round after the last fault and after a commit picks the commit up. -/
+theorem C17_latest (cfg : Option Nat) (rels0 : Rels) (hwf : WF rels0) (ops : List LOp) (r g : Nat) :
+    (execL true cfg (LState.init rels0) ops).cache ≠ none →
+    Spec cfg (execL true cfg (LState.init rels0) ops).rels r g →
+    (execL true cfg (LState.init rels0) ops).alive = true ∧
+    ((execL true cfg (LState.init rels0) ops).pending = false →
+      (stepL true cfg (stepL true cfg (execL true cfg (LState.init rels0) ops) .tick).1 (.select true)).2
+        = .served r g) ∧
+    (stepL true cfg (execL true cfg (LState.init rels0) (ops ++ [.tick, .tick])) (.select true)).2 = .served r g := by
+  intro hc hs
+  obtain ⟨hinv, halive⟩ := reach_repaired (cfg := cfg) hwf ops
+  refine ⟨halive hc, ?_, ?_⟩
+  · intro hpd
+    obtain ⟨h1, _, h3⟩ := tick_fresh (sv := true) hinv (halive hc) hpd hc hs
+    exact obs_select_served h3 h1
+  · have hex : ∀ (s : LState) (xs ys : List LOp), execL true cfg s (xs ++ ys) = execL true cfg (execL true cfg s xs) ys := by
+      intro s xs
+      induction xs generalizing s with
+      | nil => intro ys; rfl
+      | cons x xs ih => intro ys; exact ih _ ys
+    rw [hex]
+    obtain ⟨h1, h3⟩ := tick_twice_fresh hinv (halive hc) hc hs
+    exact obs_select_served h3 h1
+
+/-- **C17_latest_repaired**: the same for one round, as it was stated for the repair of C17-F2. -/
+theorem C17_latest_repaired (cfg : Option Nat) (rels0 : Rels) (hwf : WF rels0) (ops : List LOp) (r g : Nat) :
+    (execL true cfg (LState.init rels0) ops).cache ≠ none →
+    (execL true cfg (LState.init rels0) ops).pending = false →
+    Spec cfg (execL true cfg (LState.init rels0) ops).rels r g →
+    (stepL true cfg (stepL true cfg (execL true cfg (LState.init rels0) ops) .tick).1 (.select true)).2
+      = .served r g :=
+  fun hc hpd hs => (C17_latest cfg rels0 hwf ops r g hc hs).2.1 hpd
+
+/-! #### the refresher that ends with its first exception (`survive = false`): C17-F2 as it was, and what any
+narrowing of the handler brings back for the exceptions it lets through -/
+
+/-- no release configured, no registry fault: that refresher too stays alive and every round brings the newest
+generation of the highest release that has any. -/
+theorem C17_latest_fragile_unconfigured (rels0 : Rels) (hwf : WF rels0) (ops : List LOp) (hnf : NoFault ops)
+    (r g : Nat) :
     (execL false none (LState.init rels0) ops).cache ≠ none →
     Spec none (execL false none (LState.init rels0) ops).rels r g →
     (execL false none (LState.init rels0) ops).alive = true ∧
     (stepL false none (stepL false none (execL false none (LState.init rels0) ops) .tick).1 (.select true)).2
       = .served r g := by
   intro hc hs
-  obtain ⟨hinv, halive⟩ := reach_unconfigured hwf ops
-  obtain ⟨h1, _, h3⟩ := tick_fresh (sv := false) hinv (halive hc) hc hs
+  obtain ⟨hinv, halive, hpd⟩ := reach_unconfigured hwf ops hnf
+  obtain ⟨h1, _, h3⟩ := tick_fresh (sv := false) hinv (halive hc) hpd hc hs
   exact ⟨halive hc, obs_select_served h3 h1⟩
 
 /-- unconfigured, and something was cached: there always is something to resolve to -/
-theorem C17_latest_spec_exists (rels0 : Rels) (hwf : WF rels0) (ops : List LOp) :
-    (execL false none (LState.init rels0) ops).cache ≠ none →
-    ∃ r g, Spec none (execL false none (LState.init rels0) ops).rels r g :=
-  fun hc => cached_spec_none (reach_unconfigured hwf ops).1 hc
+theorem C17_latest_spec_exists (sv : Bool) (rels0 : Rels) (hwf : WF rels0) (ops : List LOp) :
+    (execL sv none (LState.init rels0) ops).cache ≠ none →
+    ∃ r g, Spec none (execL sv none (LState.init rels0) ops).rels r g :=
+  fun hc => cached_spec_none (invL_exec ops (invL_init hwf)) hc
 
-/-- The same statement for a configured release, at full strength: false for the code that exists. -/
+/-- The statement for a configured release and fault-free histories at full strength: false for that refresher. -/
 def C17_latest_configured_full : Prop :=
-  ∀ (rels0 : Rels) (c : Nat) (ops : List LOp) (r g : Nat), WF rels0 →
+  ∀ (rels0 : Rels) (c : Nat) (ops : List LOp) (r g : Nat), WF rels0 → NoFault ops →
     (execL false (some c) (LState.init rels0) ops).cache ≠ none →
     Spec (some c) (execL false (some c) (LState.init rels0) ops).rels r g →
     (stepL false (some c) (stepL false (some c) (execL false (some c) (LState.init rels0) ops) .tick).1
@@ -646,10 +729,10 @@ def hasGenB (rels : Rels) (c : Nat) : Bool :=
   | _ => false
 
 /-- **C17_latest_configured_partial**: when the configured release has a generation in the registry the selector
-first meets, every history keeps the refresher alive and every refresh round brings the newest generation of the
-configured release – commits to other (higher or lower) releases change nothing. -/
+first meets, every fault-free history keeps that refresher alive and every refresh round brings the newest
+generation of the configured release – commits to other (higher or lower) releases change nothing. -/
 theorem C17_latest_configured_partial (rels0 : Rels) (c : Nat) (hwf : WF rels0) (hgen : hasGenB rels0 c = true)
-    (ops : List LOp) (r g : Nat) :
+    (ops : List LOp) (hnf : NoFault ops) (r g : Nat) :
     (execL false (some c) (LState.init rels0) ops).cache ≠ none →
     Spec (some c) (execL false (some c) (LState.init rels0) ops).rels r g →
     (execL false (some c) (LState.init rels0) ops).alive = true ∧
@@ -661,32 +744,39 @@ theorem C17_latest_configured_partial (rels0 : Rels) (c : Nat) (hwf : WF rels0) 
     split at hgen
     · rename_i a l h; exact ⟨a :: l, h, by simp⟩
     · cases hgen
-  obtain ⟨hinv, halive, _⟩ := reach_configured hwf hg ops
-  obtain ⟨h1, _, h3⟩ := tick_fresh (sv := false) hinv (halive hc) hc hs
+  obtain ⟨hinv, halive, _, hpd⟩ := reach_configured hwf hg ops hnf
+  obtain ⟨h1, _, h3⟩ := tick_fresh (sv := false) hinv (halive hc) hpd hc hs
   exact ⟨halive hc, obs_select_served h3 h1⟩
 
 /-- release 1 is published but empty when `Latest(project, release=1)` is first used: the first refresh round
 raises `Listing.Empty` in `new != old` and ends the thread; generation 1 is committed and served (pinned);
-generation 2 is committed – and never picked up (finding C17-F2). -/
+generation 2 is committed – and never picked up (finding C17-F2, repaired in /repo 0762d05). -/
 theorem C17_latest_configured_counterexample : ¬ C17_latest_configured_full := by
   intro h
   have hwf : WF [(1, [])] := by simp [WF]
-  have := h [(1, [])] 1 [.select false, .tick, .commit 1, .select true, .commit 1] 1 2 hwf (by decide)
+  have hnf : NoFault [.select false, .tick, .commit 1, .select true, .commit 1] := by
+    intro op hop e he; subst he; simp at hop
+  have := h [(1, [])] 1 [.select false, .tick, .commit 1, .select true, .commit 1] 1 2 hwf hnf (by decide)
     ⟨rfl, [1, 2], by decide, by decide, by decide⟩
   revert this
   decide
 
-/-- **C17_latest_repaired**: with the refresher surviving a failing round
-(fixes/C17-refresher-survives-errors.diff) the statement holds at full strength in both configurations. -/
-theorem C17_latest_repaired (cfg : Option Nat) (rels0 : Rels) (hwf : WF rels0) (ops : List LOp) (r g : Nat) :
-    (execL true cfg (LState.init rels0) ops).cache ≠ none →
-    Spec cfg (execL true cfg (LState.init rels0) ops).rels r g →
-    (stepL true cfg (stepL true cfg (execL true cfg (LState.init rels0) ops) .tick).1 (.select true)).2
-      = .served r g := by
-  intro hc hs
-  obtain ⟨hinv, halive⟩ := reach_repaired (cfg := cfg) hwf ops
-  obtain ⟨h1, _, h3⟩ := tick_fresh (sv := true) hinv (halive hc) hc hs
-  exact obs_select_served h3 h1
+/-- Liveness under transient faults for that refresher: false. -/
+def C17_latest_fragile_faults_full : Prop :=
+  ∀ (rels0 : Rels) (ops : List LOp) (r g : Nat), WF rels0 →
+    (execL false none (LState.init rels0) ops).cache ≠ none →
+    Spec none (execL false none (LState.init rels0) ops).rels r g →
+    (stepL false none (execL false none (LState.init rels0) (ops ++ [.tick, .tick])) (.select true)).2 = .served r g
+
+/-- one transient fault (say `OSError: Stale file handle` out of a listing) ends it: generation 2, committed
+afterwards, is never served however many rounds follow. -/
+theorem C17_latest_fragile_faults_counterexample : ¬ C17_latest_fragile_faults_full := by
+  intro h
+  have hwf : WF [(1, [1])] := by simp [WF]
+  have := h [(1, [1])] [.select true, .fault .os, .tick, .commit 1] 1 2 hwf (by decide)
+    ⟨⟨[1, 2], by decide, by decide, by decide⟩, by decide⟩
+  revert this
+  decide
 
 /-- every history keeps the listings as `Level.Listing` yields them and what is cached listed -/
 theorem C17_latest_invariant (sv : Bool) (cfg : Option Nat) (rels0 : Rels) (hwf : WF rels0) (ops : List LOp) :
@@ -746,6 +836,18 @@ example : (runL false (some 1) (LState.init [(1, [])])
 example : (runL true (some 1) (LState.init [(1, [])])
     [.select false, .tick, .commit 1, .select true, .commit 1, .tick, .select true]).2
     = [.picked 1, .quiet, .quiet, .served 1 1, .quiet, .quiet, .served 1 2] := by decide
+-- a transient fault costs one round, no more (as is); it ends the fragile refresher
+example : (runL true none (LState.init [(1, [1])])
+    [.select true, .fault .os, .commit 1, .tick, .select true, .tick, .select true]).2
+    = [.served 1 1, .quiet, .quiet, .quiet, .served 1 1, .quiet, .served 1 2] := by decide
+example : (runL false none (LState.init [(1, [1])])
+    [.select true, .fault .os, .commit 1, .tick, .select true, .tick, .select true]).2
+    = [.served 1 1, .quiet, .quiet, .quiet, .served 1 1, .quiet, .served 1 1] := by decide
+example : NoFault [.select true, .commit 1, .tick] := by intro op hop e he; subst he; simp at hop
+example : Builder.build ⟨0, 1, 1, some 3⟩ [⟨2, none, none, none⟩, ⟨1, some 2, some 1, some 1⟩, ⟨5, none, none, none⟩]
+    = [⟨0, 1, 1, some 3⟩, ⟨0, 1, 2, none⟩, ⟨1, 2, 1, some 1⟩, ⟨1, 2, 5, none⟩] := by decide
+example : exclusive (Builder.build ⟨0, 1, 1, none⟩ [⟨2, none, none, none⟩, ⟨1, none, some 1, none⟩]) = true := by decide
+example : exclusive (Builder.build ⟨0, 1, 1, none⟩ [⟨2, none, none, none⟩, ⟨1, none, none, none⟩]) = false := by decide
 example : WF [(1, [1, 2]), (3, []), (7, [1])] := by simp [WF]
 example : Spec none [(1, [1, 2]), (3, []), (7, [4, 9]), (8, [])] 7 9 :=
   ⟨⟨[4, 9], by simp, by simp, by simp⟩, by simp⟩
